@@ -7,9 +7,9 @@ from vlib import *
 WORLD_PROPS = ["C01", "C02", "C04", "C05", "C06", "C10", "C13", "C15", "C16", "C03"]
 
 TIERS = {
-    # shards, histories per shard, ops per history
-    "quick": (16, 2, 220),
-    "thorough": (16, 24, 400),
+    # profile -> (shards, histories per shard, ops per history)
+    "quick": {"mixed": (16, 2, 220), "queries": (6, 2, 160), "par": (4, 1, 170)},
+    "thorough": {"mixed": (16, 24, 400), "queries": (8, 16, 300), "par": (8, 6, 250)},
 }
 
 def scan_trace(path):
@@ -48,6 +48,15 @@ def scan_trace(path):
                 st["extend-empty-batch"] += 1
         if e.get("m") == 2:
             st["mirrored-twin-ops"] += 1
+        if op == "query":
+            k = e["desc"]["kind"]
+            st["query:" + k] += 1
+            st["query-results"] += len(e["res"]["items"])
+            st["query-kinds-seen:%d" % e["q"]] = 1
+            if k == "par":
+                st["par-results"] += len(e["res"]["items"])
+                st["par-pool:%d" % e.get("pool", 0)] += 1
+                st["par-max-results"] = max(st["par-max-results"], len(e["res"]["items"]))
         st["ledger-events"] += len(e["led"])
         st["drops"] += sum(1 for x in e["led"] if x["k"] == "drop")
         if sample is None and op == "extend" and e["res"].get("ids"):
@@ -144,9 +153,9 @@ def run_world(tier, seed, scripts_only=None):
     if scripts_only:
         jobs.append(("script", scripts_only, os.path.join(d, "replay.ndjson")))
     else:
-        shards, hist, nops = TIERS[tier]
-        for i in range(shards):
-            jobs.append(("random", (seed * 1000 + i, hist, nops), os.path.join(d, "rand%02d.ndjson" % i)))
+        for prof, (shards, hist, nops) in TIERS[tier].items():
+            for i in range(shards):
+                jobs.append(("random", (seed * 1000 + i, hist, nops, prof), os.path.join(d, "%s%02d.ndjson" % (prof, i))))
         for s in sorted(glob.glob(os.path.join(VERIF, "regress", "world", "*.ndjson"))):
             jobs.append(("script", s, os.path.join(d, "reg-" + os.path.basename(s))))
         for s in sorted(glob.glob(os.path.join(WORK, "cover", "*.ndjson"))):
@@ -155,7 +164,7 @@ def run_world(tier, seed, scripts_only=None):
     def one(job):
         kind, arg, out = job
         if kind == "random":
-            p = sh([bin_path("worlddrv"), "random", str(arg[0]), str(arg[1]), str(arg[2]), out], timeout=1200, check=False)
+            p = sh([bin_path("worlddrv"), "random", str(arg[0]), str(arg[1]), str(arg[2]), out, arg[3]], timeout=1200, check=False)
         else:
             p = sh([bin_path("worlddrv"), "script", arg, out], timeout=1200, check=False)
         if p.returncode == 2:
@@ -174,7 +183,7 @@ def run_world(tier, seed, scripts_only=None):
     samples = []
     for r in results:
         for k, v in r["stats"].items():
-            if k == "max-entities":
+            if k in ("max-entities", "par-max-results") or k.startswith("query-kinds-seen"):
                 stats[k] = max(stats[k], v)
             else:
                 stats[k] += v
